@@ -3,6 +3,7 @@ from ..engine.prov import const_value, strip_casts, walk, walk_deep, show
 from ..engine.dtable import canon
 from ..engine.fold import fold
 from ..engine import panics
+from ..engine.cfg import span_str
 from .c12 import mentions
 
 CONFIGS_QUICK = ["A", "C"]
@@ -20,6 +21,7 @@ EXPLANATION = (
     "C03.10 inner_malloc / inner_realloc (natural alignment only) are reached only under align <= MALLOC_ALIGNMENT; C03.9 an over-aligned request reserves at least request2size(bytes) + alignment + MIN_CHUNK_SIZE - CHUNK_OVERHEAD and splits its tail only when a whole chunk remains. "
     "C03.11 in free and dispose_chunk every path after `self.top = p` tests p == dv and clears dv/dvsize when it holds (a chunk merged into top is retired as designated victim). "
     "C03.12 insert_large_chunk clears both child pointers of the inserted chunk on every path (also for a chunk that only joins a same-size ring). "
+    "C03.13 a chunk found by its address is unlinked only after it was compared with dv (and top, for a following chunk) and found free; C03.14 the two directions of a chunk link (next/prev, child/parent) are written together. "
     "NOT decided: alignment, disjointness and intactness of live blocks - invariants of the bin/tree/segment shape over call histories (the module's own check_malloc_state is a run-time checker); no structural rule in reach establishes them.")
 ASSUMPTIONS = ["dlmalloc's heap-shape invariants hold (not established here)", "MUNMAP returns 0 or -errno"]
 
@@ -363,6 +365,92 @@ def run_one(ck, prog):
             leak = rets & ic.cfg.reachable_from(0, avoid=blocks) if blocks else rets
             ck.ob("C03.12", f"insert_large_chunk|child[{k}]-cleared-on-every-path", bool(blocks) and not leak, fn=ilc["path"],
                   detail=f"a path through insert_large_chunk leaves child[{k}] of the inserted chunk as the previous owner left it: when that chunk is later promoted into the tree the allocator follows user bytes as tree links")
+
+    # ---- C03.13 only a chunk that sits in a bin is unlinked: a chunk found by its address (the neighbour of the chunk being freed, the first
+    # chunk of a segment) is unlinked only after it was compared with the designated victim (which is in no bin: its link words are stale),
+    # found not in use, and - when it follows the chunk at hand - compared with top
+    n_unl = 0
+    for p2, f2 in prog.fns.items():
+        if not p2.startswith(DL) or p2.endswith("::unlink_chunk"):
+            continue
+        c13 = prog.ctx(f2)
+        for bb, t in c13.cfg.calls(lambda t: (t.get("callee") or "").endswith(("Dlmalloc::unlink_chunk", "Dlmalloc::unlink_large_chunk", "Dlmalloc::unlink_small_chunk"))):
+            a = c13.args(bb)
+            ch = strip_casts(a[1])
+            while isinstance(ch, tuple) and ch and ch[0] == "call" and (ch[1] or "").endswith(("::cast", "::cast_mut", "::cast_const")) and ch[2]:
+                ch = strip_casts(ch[2][0])
+            # a chunk taken out of a bin or tree by walking it needs no test
+            if any(x[0] == "call" and (x[1] or "").endswith(("treebin_at", "smallbin_at", "leftmost_child")) for x in walk_deep(ch, c13.prov)) or (isinstance(ch, tuple) and ch[0] == "var"):
+                continue
+            n_unl += 1
+            kc = canon(ch)
+            is_prev = any(x[0] == "call" and (x[1] or "").endswith("Chunk::minus_offset") for x in walk(ch))
+            facts = panics.dominating_facts(c13, bb)
+
+            def ne_field(fld):
+                for f in facts:
+                    if f[0] == "cmp" and f[1] == "Ne":
+                        l, r = canon(strip_casts(f[2])), canon(strip_casts(f[3]))
+                        if (l == kc and mentions(f[3], c13.prov, lambda z: z[0] == "field" and z[2] == fld)) or (r == kc and mentions(f[2], c13.prov, lambda z: z[0] == "field" and z[2] == fld)):
+                            return True
+                return False
+            free_known = any(f[0] == "truth" and f[2] is False and isinstance(f[1], tuple) and f[1][0] == "call" and (f[1][1] or "").endswith(("Chunk::cinuse", "Chunk::inuse", "Chunk::pinuse")) and
+                             (canon(strip_casts(f[1][2][0])) == kc or ((f[1][1] or "").endswith("pinuse") and is_prev)) for f in facts)
+            site = f"{p2.split('::')[-1]}|{'previous' if is_prev else 'following/first'}"
+            ck.ob("C03.13", f"{site}|not-the-designated-victim", ne_field("dv"), fn=p2, site=c13.site(bb), detail="the designated victim is in no bin; unlinking it follows stale link words and leaves dv pointing into a binned chunk (the same bytes are then handed out twice)")
+            ck.ob("C03.13", f"{site}|known-free", free_known, fn=p2, site=c13.site(bb), detail="a chunk may be unlinked only after its in-use bit was found clear")
+            if not is_prev and not p2.endswith("release_unused_segments"):
+                # release_unused_segments: as in upstream dlmalloc the first chunk of a whole-segment candidate is not compared with top
+                ck.ob("C03.13", f"{site}|not-top", ne_field("top"), fn=p2, site=c13.site(bb), detail="top is in no bin either")
+    ck.floor("C03.13", "unlink sites of chunks found by address", n_unl, 7)
+
+    # ---- C03.14 the two directions of a link are written together: `A.next = B` with `B.prev = A`, `A.child[k] = B` with `B.parent = A` --------
+    def lk(e):
+        """canonical name of a chunk pointer; TreeChunk::chunk(E) and &(*E).chunk are the same address"""
+        e = strip_casts(e)
+        if isinstance(e, tuple) and e and e[0] == "call" and (e[1] or "").endswith("TreeChunk::chunk") and e[2]:
+            return "CH(" + lk(e[2][0]) + ")"
+        if isinstance(e, tuple) and e and e[0] == "field" and e[2] == "chunk" and isinstance(e[1], tuple) and e[1][0] == "deref":
+            return "CH(" + lk(e[1][1]) + ")"
+        if isinstance(e, tuple) and e and e[0] in ("ref", "addr"):
+            return lk(e[2])
+        if isinstance(e, tuple) and e and e[0] == "index":
+            return lk(e[1]) + f"[{fold(e[2])}]"
+        if isinstance(e, tuple) and e and e[0] == "deref":
+            return "*" + lk(e[1])
+        if isinstance(e, tuple) and e and e[0] == "field":
+            return lk(e[1]) + "." + str(e[2])
+        return canon(e)
+    n_links = 0
+    for p2, f2 in prog.fns.items():
+        if not p2.startswith(DL):
+            continue
+        c14 = prog.ctx(f2)
+        stores = []
+        for b in f2["blocks"]:
+            if b["id"] not in c14.cfg.live_blocks() or b.get("cleanup"):
+                continue
+            for i, st in enumerate(b["stmts"]):
+                if st["k"] != "assign" or not st["dst"].get("p"):
+                    continue
+                pl = c14.prov.place(st["dst"], (b["id"], i))
+                idx = None
+                if isinstance(pl, tuple) and pl[0] == "index":
+                    idx, pl = fold(pl[2]), pl[1]
+                if not (isinstance(pl, tuple) and pl[0] == "field" and pl[2] in ("next", "prev", "child", "parent") and str(pl[3]).endswith(("::Chunk", "::TreeChunk"))):
+                    continue
+                owner = pl[1][1] if isinstance(pl[1], tuple) and pl[1][0] == "deref" else pl[1]
+                val = c14.prov.rvalue(st["rv"], (b["id"], i))
+                stores.append((pl[2] + (f"[{idx}]" if idx is not None else ""), lk(owner), lk(val), fold(val) == 0 or "null" in show(val), b["id"], st))
+        for fld, owner, val, is_null, bid, st in stores:
+            inv = {"next": "prev", "child[0]": "parent", "child[1]": "parent"}.get(fld)
+            if inv is None or is_null:
+                continue
+            n_links += 1
+            ok = any(f2_ == inv and o2 == val and v2 == owner for f2_, o2, v2, _, _, _ in stores)
+            ck.ob("C03.14", f"{p2.split('::')[-1]}|{owner[-40:]}.{fld}={val[-40:]}|inverse-link-written", ok, fn=p2, site=span_str(st["sp"]),
+                  detail=f"`{owner}.{fld} = {val}` needs `{val}.{inv} = {owner}` in the same operation; a chunk whose back pointer still names a removed chunk makes a later unlink write into a live block")
+    ck.floor("C03.14", "forward links written", n_links, 12)
 
     # ---- C03.8 a failed in-place resize leaves the heap untouched ------------------------------------------------------------------------------
     trc = prog.fns.get(DL + "try_realloc_chunk")
